@@ -1,9 +1,9 @@
 package props
 
 import (
-	"go/types"
-	"go/constant"
 	"fmt"
+	"go/constant"
+	"go/types"
 
 	"golang.org/x/tools/go/ssa"
 
